@@ -40,7 +40,7 @@ func runC03(rc *RunCtx) {
 	bigChunk := rc.Chance(0.5)
 	chunk := int64(1024)
 	if bigChunk {
-		chunk = 2_000_000_000
+		chunk = 1 << 50 // every declared size below is a single chunk: provable for ever, counted with its declared size
 	}
 	sp := storageParams(W, C, chunk)
 	sp.CollateralPrice = 1000
@@ -108,7 +108,8 @@ func runC03(rc *RunCtx) {
 		beh map[int]*c03Behaviour
 	}
 	var fs []*fileState
-	sizes := []int64{1, 2, 1000, 1024, 4096, 40000, 1_000_000, 999_999_937, 1_000_000_000}
+	// declared sizes up to terabytes: released ujkl x counted bytes passes 2^63
+	sizes := []int64{1, 2, 1000, 1024, 4096, 40000, 1_000_000, 999_999_937, 1_000_000_000, 300_000_000_000, 2_000_000_000_000, 300_000_000_000}
 	for i := 0; i < nFiles; i++ {
 		var f *gen.File
 		declared := int64(-1)
